@@ -93,13 +93,30 @@ def make_exc(M, Boom, kind):
 
 @proof(['C06', 'C01'], targets=[(FI, 'InspectWrapper._process_chunk')])
 def process_chunk_isolates_faults():
+    process_chunk_proof('<symbolic>')
+
+
+@proof(['C06', 'C01'], targets=[(FI, 'InspectWrapper._process_chunk')])
+def process_chunk_isolates_faults_named_formats():
+    """The same obligations with expected_format ranging over concrete
+    names that are prefixes / extensions / equal copies of the inspector
+    names (cheap: no string solving), so that a substring or identity test in
+    place of == is refuted within the quick budget."""
+    process_chunk_proof(pick('expected_name', [None, 'vhd', 'vhdx', 'raw',
+                                               'iso', '', 'vh', 'vhdxx',
+                                               'ra']))
+
+
+def process_chunk_proof(fixed_expected):
     M = load(FI)
     names = ['vhd', 'vhdx', 'raw']
     Fake, Boom, fakes = make_wrapper(M, names, None, None, None)
     order = pick('set_order', PERMS3)
     # any expected_format: None or an arbitrary string (a format name, a
     # prefix or extension of one, the empty string, ...)
-    if pick('expected_given', [False, True]):
+    if fixed_expected != '<symbolic>':
+        expected = fixed_expected
+    elif pick('expected_given', [False, True]):
         expected = fresh_str('expected_format')
     else:
         expected = None
